@@ -254,7 +254,28 @@ def decoration_env_stores(sw):
     for ev in eval_calls(f):
         if len(ev.args) > 2 and isinstance(ev.args[2], ast.Name):
             envs.add(ev.args[2].id)
+    # names bound to the same mapping by plain copies `a = b`
+    changed = True
+    while changed:
+        changed = False
+        for n in ast.walk(f):
+            if isinstance(n, ast.Assign) and isinstance(n.value, ast.Name) and len(n.targets) == 1 and isinstance(n.targets[0], ast.Name):
+                a_, b_ = n.targets[0].id, n.value.id
+                if (a_ in envs) != (b_ in envs) and a_ != b_:
+                    # only environments built in this function (a dict display / dict() call assigned to the other name)
+                    envs.update((a_, b_))
+                    changed = True
     out = []
+    # a loop over every stored series pre-loads the decorative variables with their value of the previous period
+    for loop in [n for n in ast.walk(f) if isinstance(n, ast.For)]:
+        srcs = {x.attr for x in ast.walk(loop.iter) if isinstance(x, ast.Attribute)}
+        if 'TimeSeries' in srcs and not (srcs & set(PARTITIONS)):
+            for a in ast.walk(loop):
+                if isinstance(a, ast.Assign):
+                    for t in a.targets:
+                        if isinstance(t, ast.Subscript) and isinstance(t.value, ast.Name) and t.value.id in envs:
+                            out.append((a, False, 'every stored series (decorative ones included) is pre-loaded into the '
+                                                  'evaluation environment as %s' % unparse(a.value)))
 
     def deco_names():
         names = set()
